@@ -10,6 +10,8 @@
 (*  C12: legacy alias macros designate the normative field; packed legacy  *)
 (*       structures have the layout the header views imply                 *)
 (*  C16: SharedCells = {}: no library symbol lives in a writable section   *)
+(*  C05: what the public declarations promise the caller's compiler about  *)
+(*       a function (const / pure / noreturn ...) is true of it            *)
 (***************************************************************************)
 EXTENDS Wire1722, Json, IOUtils, Sequences, TLC
 Tr == ndJsonDeserialize(IOEnv.TRACE)
@@ -31,6 +33,11 @@ Allowed(ev) ==
          \E s \in LegacyStructs : s.name = ev.name /\ ev.member \in DOMAIN s.members /\ s.members[ev.member] = ev.value
     [] ev.kind = "writable_symbol" ->
          ev.name \in SharedCells
+    [] ev.kind = "fn_promise" ->        \* what a public declaration promises the caller's compiler must be true of the function
+         LET A == { ev.attrs[i] : i \in DOMAIN ev.attrs } IN
+         /\ "noreturn" \notin A /\ "returns_twice" \notin A /\ "malloc" \notin A /\ "weak" \notin A
+         /\ (ev.reads = 1 => "const" \notin A)          \* the result of a reader is a function of the bytes, not of the address
+         /\ (ev.writes = 1 => "pure" \notin A /\ "const" \notin A)
     [] OTHER -> FALSE
 
 TInit == l = 1
